@@ -279,6 +279,7 @@ def r4(ctx):
     fields = [n.target.id for n in cls.node.body if isinstance(n, ast.AnnAssign)]
     ok = ok and fields[2:6] == ["transmitted_hap_father1", "transmitted_hap_father2", "transmitted_hap_mother1", "transmitted_hap_mother2"]
     ctx.ob(fr.qual, "low-bit-father-high-bit-mother", ok, fr.loc(evs[0]), "value % 2 fills the father fields, value // 2 the mother fields (C++: father bit 2t, mother bit 2t+1)" if ok else "decoding %s into fields %s does not match the C++ layout" % (exprs, fields[2:6]))
+    c20.check_block_lookup(ctx, fr)
     wr = ctx.func(PH + ".write_recombination_list")
     ok = False
     for n in walk_function(wr.node):
@@ -306,4 +307,4 @@ RULES = [
     ("C05.R3", "genetic phasing of homozygous-parent variants on by default", r3),
     ("C05.R4", "transmission bit layout agrees between C++ and Python", r4),
 ]
-FLOORS = {"C05.R1": 14, "C05.R2": 13, "C05.R3": 4, "C05.R4": 4}
+FLOORS = {"C05.R1": 14, "C05.R2": 13, "C05.R3": 4, "C05.R4": 7}
